@@ -174,16 +174,27 @@ func (m *RefLockDB) Lock(client string, c Cmd) []Reply {
 			return []Reply{{client, c.Req, LOCKED_ERROR, d, h.Depth, false}}
 		}
 		waited = len(k.Waits) > 0
+	} else if c.TimeoutFlag&TFlagWaitUnlock != 0 {
+		// wait-when-unlocked on a free key: the request waits for the key to be taken (it is served by the
+		// wake-up pass that follows the next grant); an exclusive request behind others is refused
+		if len(k.Waits) > 0 && c.Count == 0 {
+			return []Reply{{client, c.Req, UNOWN_ERROR, 0, 0, false}}
+		}
+		waited = true
 	}
 	canTry := !waited
-	if waited && c.TimeoutFlag&TFlagPriority != 0 {
+	if waited && c.TimeoutFlag&TFlagPriority != 0 && len(k.Waits) > 0 {
 		mx := k.Order()[0].Prio
 		canTry = int(c.Rcount) > mx
 	}
 	if canTry && k.Admissible(c.Count) {
 		if c.Expried > 0 {
 			k.Holds = append(k.Holds, Hold{Id: c.Id, Req: c.Req, Depth: 1, Count: c.Count, Rcount: c.Rcount, TFlag: c.TimeoutFlag, Client: client})
-			return []Reply{{client, c.Req, SUCCED, d + 1, 1, true}}
+			out := []Reply{{client, c.Req, SUCCED, d + 1, 1, true}}
+			if d == 0 && len(k.Waits) > 0 {
+				out = append(out, m.wake(k)...) // requests that waited for the key to be taken
+			}
+			return out
 		}
 		return []Reply{{client, c.Req, SUCCED, d, 0, true}}
 	}
